@@ -21,6 +21,9 @@ pub struct GenCfg {
     /// Let a cycle be closed at a head position (`let a = b; let b = a;`, `rec x x`): whether such
     /// a program is accepted depends on what else forces its kind; for crash-freedom checks only.
     pub loose_head_cycles: bool,
+    /// Let two modules declare the same `@name` even in the strict fragment (evaluating both is
+    /// an error the reference semantics expects).
+    pub at_name_clash: bool,
     /// Draw names from a very small pool so that shadowing happens often.
     pub shadowing: bool,
     /// Let declaration bodies mention declarations that are still being generated (cycles).
@@ -48,6 +51,7 @@ impl GenCfg {
             loose_rec_as_plain: false,
             loose_cross_module_poly: false,
             loose_head_cycles: false,
+            at_name_clash: false,
             shadowing: false,
             cycles: true,
             max_modules: 3,
@@ -214,7 +218,7 @@ impl<'t> Gen<'t> {
         for _ in 0..6 {
             let base = self.t.pick(pool);
             let n = if reference { format!("@{base}") } else { base.to_owned() };
-            let global_clash = reference && self.cfg.strict && self.at_names.contains(&n);
+            let global_clash = reference && self.cfg.strict && !self.cfg.at_name_clash && self.at_names.contains(&n);
             if !taken.contains(&n) && !global_clash {
                 if reference {
                     self.at_names.insert(n.clone());
